@@ -194,6 +194,7 @@ pub(super) fn select_animation<K: AnimationKey, T: Component>(
         Changed<AnimationSelector<K, T>>,
     >,
     mut animator_query: Query<&mut Animator<T>>,
+    mut events: EventWriter<AnimationStateChanged>,
 ) {
     for (entity, current_values, mut selector) in selector_query.iter_mut() {
         if selector
@@ -210,6 +211,11 @@ pub(super) fn select_animation<K: AnimationKey, T: Component>(
                 next_timeline.start_with(current_values);
                 next_timeline
             });
+            // An animator that loses its timeline goes straight to `None` here, so the animation
+            // system never sees the change; announce it like any other state change.
+            if animator.timeline.is_none() && animator.state != AnimationState::None {
+                events.send(AnimationStateChanged::new(entity, AnimationState::None));
+            }
             animator.reset();
         }
     }
